@@ -35,6 +35,7 @@ type indexed struct {
 }
 
 type batch struct {
+	unreproduced int // worker deaths that did not happen again when the run was repeated alone
 	prop     string
 	tier     string
 	base     uint64
@@ -201,10 +202,14 @@ func (b *batch) confirmAbort(sc *scratch, index int, reason, stderr string) {
 		}
 		if e.Ev == "result" {
 			w.close()
-			b.fail(fmt.Errorf("run %d made a worker %s once (%s) but completed when repeated alone: not reproducible",
-				index, reason, trimStr(stderr, 300)))
+			// the first attempt fell to its environment (the wall-clock backstop or the kernel's
+			// memory pressure with sixteen workers side by side); the run repeated alone is a
+			// complete execution of the same run and its verdict - whatever it is - stands
+			fmt.Printf("note: run %d made a worker %s once (%s) and completed when repeated alone; the repeated run's verdict is used\n",
+				index, reason, trimStr(stderr, 200))
 			b.mu.Lock()
 			b.results[index] = &indexed{index: index, result: e.Result, gcase: e.Case}
+			b.unreproduced++
 			b.mu.Unlock()
 			return
 		}
